@@ -4,8 +4,10 @@ import (
 	"fmt"
 	"os"
 	"path/filepath"
+	"runtime"
 	"strings"
 	"sync"
+	"syscall"
 )
 
 // Mutant is a small source rewrite applied IN MEMORY (packages.Config.Overlay)
@@ -146,7 +148,11 @@ func selfTest(prop string) map[string]interface{} {
 		}
 		jobs = append(jobs, &job{cp: cp})
 	}
-	sem := make(chan struct{}, 4)
+	// every variant is a whole type-checked program (about 1.5 GB while it is analysed): at most two
+	// replays run at the same time on this machine, however many checks were started in parallel
+	unlock := corpusSlot()
+	defer unlock()
+	sem := make(chan struct{}, 3)
 	var wg sync.WaitGroup
 	for _, j := range jobs {
 		wg.Add(1)
@@ -154,6 +160,7 @@ func selfTest(prop string) map[string]interface{} {
 		go func(j *job) {
 			defer wg.Done()
 			defer func() { <-sem }()
+			defer runtime.GC() // each variant is a whole type-checked program with its SSA form: give it back promptly
 			b, err := os.ReadFile(j.cp.Path)
 			if err != nil {
 				j.skip = err.Error()
@@ -170,6 +177,9 @@ func selfTest(prop string) map[string]interface{} {
 				return
 			}
 			r, err := runProp(w, prop, "quick")
+			if w.prog != nil {
+				defer forgetProgram(w.prog)
+			}
 			if err != nil {
 				j.keys = append(j.keys, "checker-panic: "+err.Error())
 				return
@@ -231,4 +241,40 @@ func selfTest(prop string) map[string]interface{} {
 		"corpus_refactorings_ok":  refOK,
 		"note":                    "in-memory overlays of the current /repo sources; measures checker sensitivity/specificity only",
 	}
+}
+
+// corpusSlot takes one of two machine-wide slots (advisory file locks next to the corpora) and
+// returns the function that gives it back. If the lock files cannot be used the replay just runs.
+func corpusSlot() func() {
+	dir := verifDir()
+	var files []*os.File
+	for _, n := range []string{".replay-slot-1", ".replay-slot-2"} {
+		f, err := os.OpenFile(filepath.Join(dir, n), os.O_CREATE|os.O_RDWR, 0o644)
+		if err != nil {
+			continue
+		}
+		files = append(files, f)
+	}
+	closeAll := func(except *os.File) {
+		for _, f := range files {
+			if f != except {
+				f.Close()
+			}
+		}
+	}
+	for _, f := range files {
+		if syscall.Flock(int(f.Fd()), syscall.LOCK_EX|syscall.LOCK_NB) == nil {
+			closeAll(f)
+			return func() { syscall.Flock(int(f.Fd()), syscall.LOCK_UN); f.Close() }
+		}
+	}
+	if len(files) > 0 {
+		f := files[0]
+		closeAll(f)
+		if syscall.Flock(int(f.Fd()), syscall.LOCK_EX) == nil {
+			return func() { syscall.Flock(int(f.Fd()), syscall.LOCK_UN); f.Close() }
+		}
+		f.Close()
+	}
+	return func() {}
 }
